@@ -99,4 +99,31 @@ def WTs (d : Nat) (fs : List (UF d)) : Prop := wts d fs = true
 
 instance (d : Nat) (fs : List (UF d)) : Decidable (WTs d fs) := inferInstanceAs (Decidable (_ = true))
 
+/-! ## the encoding of a well-typed tree (Thrift Binary layout, written down directly) -/
+
+/-- value bytes of one node; for payloads that do not fit the node's type the result is irrelevant -/
+def ufSpecEnc : (d : Nat) → UF d → Bytes
+  | 0, f => f.elim
+  | d+1, f =>
+    match f.2 with
+    | .nil => []
+    | .bool v => [if v then 1 else 0]
+    | .i8 v => [v]
+    | .i16 v => be16 v.toNat
+    | .i32 v => be32 v.toNat
+    | .i64 v => be64 v.toNat
+    | .f64 bits => be64 bits.toNat
+    | .str s => be32 s.length ++ s
+    | .fields cs =>
+      if f.1.typ = TT.STRUCT then
+        (cs.map fun c => (ufMeta d c).typ :: be16 (ufMeta d c).id.toNat ++ ufSpecEnc d c).flatten ++ [0]
+      else if f.1.typ = TT.MAP then
+        f.1.kt :: f.1.vt :: be32 (cs.length / 2) ++ (cs.map (ufSpecEnc d)).flatten
+      else
+        f.1.vt :: be32 cs.length ++ (cs.map (ufSpecEnc d)).flatten
+
+/-- a field sequence: (type, id, value)* -/
+def ufSpecEncs (d : Nat) (fs : List (UF d)) : Bytes :=
+  (fs.map fun c => (ufMeta d c).typ :: be16 (ufMeta d c).id.toNat ++ ufSpecEnc d c).flatten
+
 end Verif
